@@ -24,7 +24,10 @@ import (
 )
 
 var opNames = []string{"get", "add", "upd", "del", "uoa", "utl", "utr"}
-var keyTypes = []string{"int", "neg", "str", "crc", "u64", "i8"}
+var keyTypes = []string{"int", "mix", "neg", "crcpair", "str", "const", "crc", "u64", "minmix", "i8"}
+
+// schemes in which distinct keys have equal HashedInt(): one worker, but different keys for store and cache
+var collide = map[string]bool{"mix": true, "crcpair": true, "const": true, "minmix": true}
 
 func readPlan(path string) []step {
 	f, err := os.Open(path)
@@ -85,6 +88,14 @@ func randCfg(rng *rand.Rand, src string) config {
 		c.KT = "edge"
 	}
 	c.Sized = rng.Intn(3) == 0
+	if collide[c.KT] {
+		if c.NK < 2 {
+			c.NK = 2 + rng.Intn(5)
+		}
+		if rng.Intn(2) == 0 { // the group's own facades get half of these runs
+			c.Facade = []string{"bmap", "blru"}[rng.Intn(2)]
+		}
+	}
 	return c
 }
 
@@ -137,6 +148,10 @@ func main() {
 				Sized: i%5 == 0, Src: "plan:" + filepath.Base(f)}
 			if p[0].L {
 				cfg.Facade = "lru"
+			}
+			if collide[cfg.KT] && i%4 >= 2 { // built-in facades for half of the colliding-key plans
+				cfg.Facade = map[string]string{"map": "bmap", "lru": "blru"}[cfg.Facade]
+				cfg.Cap = 100
 			}
 			runSteps(w, cfg, p[1:])
 		}
